@@ -91,12 +91,15 @@ func (v Variant) Flags() string { return strings.Join(v.Args()[1:], " ") }
 
 // Case is one generated grammar with its spelling and inputs.
 type Case struct {
-	ID      int            `json:"id"`
-	Profile string         `json:"profile"`
-	G       *gram.Grammar  `json:"g"`
-	Spell   []int          `json:"spell,omitempty"`
-	Inputs  []proto.QStr   `json:"inputs"`
-	Hist    [][]proto.Step `json:"hist,omitempty"`
+	ID      int           `json:"id"`
+	Profile string        `json:"profile"`
+	G       *gram.Grammar `json:"g"`
+	Spell   []int         `json:"spell,omitempty"`
+	// ActStyle 1: the probe actions of the grammar are the same text except for the number of
+	// blanks inside a string literal (action code is opaque: nothing may normalise it)
+	ActStyle int            `json:"act_style,omitempty"`
+	Inputs   []proto.QStr   `json:"inputs"`
+	Hist     [][]proto.Step `json:"hist,omitempty"`
 }
 
 // Render produces the grammar text of a case for AST or no-AST parsers (the action probes
@@ -109,13 +112,17 @@ func Render(c *Case, pkg string, noast bool) string {
 	hasCap := g.Count(gram.KCap) > 0
 	p := gram.Printer{G: g, S: &gram.Spell{V: c.Spell}, ActionText: func(e *gram.Expr) string {
 		var probe string
+		id := fmt.Sprintf("a%d", e.ActID)
+		if c.ActStyle == 1 {
+			id = strings.Repeat(" ", e.ActID+1)
+		}
 		switch {
 		case !noast:
-			probe = fmt.Sprintf(`p.rec("a%d", text, begin, end)`, e.ActID)
+			probe = fmt.Sprintf(`p.rec("%s", text, begin, end)`, id)
 		case hasCap:
-			probe = fmt.Sprintf(`p.rec1("a%d", text)`, e.ActID)
+			probe = fmt.Sprintf(`p.rec1("%s", text)`, id)
 		default:
-			probe = fmt.Sprintf(`p.rec0("a%d")`, e.ActID)
+			probe = fmt.Sprintf(`p.rec0("%s")`, id)
 		}
 		if e.Wrap {
 			return " if true { " + probe + " } "
